@@ -25,6 +25,11 @@ ASSUMPTIONS = [
 def check_all(tr, jumps, states, labels_site, M, n_atoms, T, dt, temp, info, dims_list=(1, 2, 3), n_parts=2, bounds=None):
     S = len(labels_site)
     ev = tr.events
+    # read-only views requested first: they must not disturb the bookkeeping that follows
+    gcall(tr.states_prev)
+    gcall(tr.states_next)
+    if not np.array_equal(np.asarray(tr.states), states):
+        raise Violation('states-unchanged-by-views', 'states_prev()/states_next() modified Transitions.states')
     # ---- Transitions.matrix
     tm = np.asarray(gcall(tr.matrix))
     want = np.zeros((S, S), dtype=int)
@@ -136,7 +141,7 @@ def check_all(tr, jumps, states, labels_site, M, n_atoms, T, dt, temp, info, dim
         pairs = [(a, b) for a in labels_site for b in labels_site]
         for pair in set(pairs):
             vals = [c[pair] for c in pc]
-            if sum(vals) > c_lab[pair]:
+            if sum(vals) > c_lab[pair] or (n_parts == 1 and sum(vals) != c_lab[pair]):
                 raise Violation('rates-consistent-with-jump-counts', f'{pair}: the parts behind rates() hold {vals} jumps but the whole has {c_lab[pair]} (minimal_residence={jumps.minimal_residence})')
             wm, ws = np.mean(vals) / denom, (np.std(vals, ddof=1) / denom if n_parts > 1 else float('nan'))
             gm, gs = float(r.loc[pair, 'rates']), float(r.loc[pair, 'std'])
@@ -163,7 +168,7 @@ def run_pipeline(case):
         raise Skip()
     traj = sitesys.full_trajectory(case)
     tr = gcall(traj.transitions_between_sites, sitesys.sites(case), 'Li', site_radius=sitesys.radius_arg(case), site_inner_fraction=case['inner_fraction'])
-    states = np.asarray(tr.states)
+    states = np.array(tr.states)  # a copy: the library must not change its own record either
     T, N = states.shape
     j = jumps_or_none(tr, case.get('residence', 0))
     info = {'labels': [case['lattice']['family']], 'site_frac': case['sites']['frac'], 'cell': case['lattice']['family'] + '/' + case['lattice']['orient']}
@@ -189,7 +194,7 @@ def run_history(case):
     coords = np.array(case['coords'])
     traj = cases.trajectory(coords, ['Li'] * N, M, case['time_step'], case['temperature'])
     tr = Transitions(trajectory=traj, diff_trajectory=cases.trajectory(coords, ['Li'] * N, M, case['time_step'], case['temperature']),
-                     sites=sitesys.sites(case), events=events, states=states, inner_states=inner)
+                     sites=sitesys.sites(case), events=events, states=states.copy(), inner_states=inner.copy())
     j = jumps_or_none(tr, case.get('residence', 0))
     info = {'labels': [case['lattice']['family']], 'site_frac': case['sites']['frac'], 'cell': case['lattice']['family'] + '/' + case['lattice']['orient']}
     check_all(tr, j, states, case['sites']['labels'], M, N, T, case['time_step'], case['temperature'], info, n_parts=case.get('n_parts', 2), bounds=case.get('bounds'))
